@@ -290,6 +290,37 @@ func c04Layout(r *core.Report) {
 			}
 			a, b := norm(bs), norm(rs)
 			da, db := defOf(bs), defOf(rs)
+			// both hand "the value size" to one shared helper: return entryStrideFor(b.getValueSize())
+			shared := func(f *core.Func) (types.Object, string) {
+				var ret ast.Expr
+				nRet := 0
+				ast.Inspect(f.Body, func(n ast.Node) bool {
+					if rt, ok := n.(*ast.ReturnStmt); ok && len(rt.Results) == 1 {
+						ret = rt.Results[0]
+						nRet++
+					}
+					return true
+				})
+				c, ok := core.Unparen(ret).(*ast.CallExpr)
+				if !ok || nRet != 1 || len(c.Args) != 1 {
+					return nil, ""
+				}
+				fo := core.Callee(f.Pkg.TypesInfo, c)
+				if fo == nil || p.ByObj[fo.Origin()] == nil {
+					return nil, ""
+				}
+				// the role names the header field; whose header it is (b.Header, db.Header through a getter) does not matter
+				role := valueSizeRole(p, f, c.Args[0])
+				if parts := strings.Split(role, "."); len(parts) > 2 {
+					role = strings.Join(parts[len(parts)-2:], ".")
+				}
+				return fo.Origin(), role
+			}
+			if ha, ra := shared(bs); ha != nil && ra != "" {
+				if hb2, rb := shared(rs); hb2 == ha {
+					a, b, da, db = ha.Name()+"(·)", ha.Name()+"(·)", ra, rb
+				}
+			}
 			// the value-size operand written in place instead of through a local: uint8(HashSize) + uint8(b.getValueSize())
 			if sa, ra, oka := strideShape(p, bs); oka {
 				if sb2, rb, okb := strideShape(p, rs); okb {
@@ -356,9 +387,13 @@ func c04Layout(r *core.Report) {
 				return true
 			}
 			if w := fixedWidth(core.CalleeName(li, c)); w > 0 && len(c.Args) == 1 {
-				if se, ok := core.Unparen(c.Args[0]).(*ast.SliceExpr); ok && se.Low != nil && se.High != nil {
+				if se, ok := core.Unparen(c.Args[0]).(*ast.SliceExpr); ok && se.High != nil {
 					lo, _ := core.ConstInt(li, se.Low)
 					hi, _ := core.ConstInt(li, se.High)
+					// positions inside a sub-slice of the header (rest := buf[12:]) are counted from the start of the header
+					if sh, okS := sliceShift(hl, se.X, 0); okS {
+						lo, hi = lo+sh, hi+sh
+					}
 					if lo >= 12 {
 						read = append(read, fmt.Sprintf("%d:%d", lo, hi))
 					}
@@ -382,6 +417,9 @@ func c04Layout(r *core.Report) {
 				}
 				if ix, ok := lhs.(*ast.IndexExpr); ok {
 					verIdx, _ = core.ConstInt(li, ix.Index)
+					if sh, okS := sliceShift(hl, ix.X, 0); okS {
+						verIdx += sh
+					}
 				}
 			}
 			return true
@@ -1353,4 +1391,36 @@ func strideShape(p *core.Prog, f *core.Func) (shape string, role string, ok bool
 	}
 	shape = render(be.X) + "+" + render(be.Y)
 	return shape, role, role != ""
+}
+
+// sliceShift: base is a local assigned once from a sub-slice with a constant lower bound (possibly of another such local);
+// the number of bytes its position 0 lies behind position 0 of the underlying parameter or field. 0 for anything else.
+func sliceShift(f *core.Func, base ast.Expr, depth int) (int64, bool) {
+	info := f.Pkg.TypesInfo
+	id, ok := core.Unparen(base).(*ast.Ident)
+	if !ok || depth > 3 {
+		return 0, false
+	}
+	v, isVar := info.Uses[id].(*types.Var)
+	if !isVar || v.IsField() || isParamOf(f, v) {
+		return 0, false
+	}
+	d := singleDef(f, v)
+	if d == nil {
+		return 0, false
+	}
+	se, isSe := core.Unparen(d).(*ast.SliceExpr)
+	if !isSe {
+		return 0, false
+	}
+	lo := int64(0)
+	if se.Low != nil {
+		c, isC := core.ConstInt(info, se.Low)
+		if !isC {
+			return 0, false
+		}
+		lo = c
+	}
+	inner, _ := sliceShift(f, se.X, depth+1)
+	return lo + inner, true
 }
